@@ -367,6 +367,30 @@ var c2negZero = []string{"-0.5", "-0.0", "-0e1", "-0.25", "-0E+2", "-0.000", "-0
 var c2numbers = []string{"-0.5", "-0.0", "-0e1", "1e-05", "-0.25", "-0E+2", "0.5", "-1e-05", "-0.000", "0e1", "0", "1", "-1", "42", "-0", "7", "100", "9007199254740991", "-9007199254740992", "9007199254740993",
 	"12345678901234567890", "1.5", "-1.25", "1e3", "1E+2", "2.50", "0.0", "1e-2", "10", "-10"}
 
+// exponent literals: mantissa x marker in both cases x exponent sign x exponent digits with and
+// without leading zeros (1.5E-03, -0E-0, 0e+00, ...): the look-behind / look-ahead of
+// isNegativeZero around a zero that follows a minus sign
+var c2expNumbers = func() []string {
+	var l []string
+	for _, m := range []string{"1.5", "1", "-1.5", "0", "-0", "2.50", "10", "-0.0", "0.5"} {
+		for _, e := range []string{"e", "E"} {
+			for _, sg := range []string{"", "+", "-"} {
+				for _, d := range []string{"0", "00", "03", "05", "3", "10", "010"} {
+					l = append(l, m+e+sg+d)
+				}
+			}
+		}
+	}
+	return l
+}()
+
+func (g *c2gen) number() c2num {
+	if g.r.Intn(3) == 0 {
+		return c2num(g.pick(c2expNumbers))
+	}
+	return c2num(g.pick(c2numbers))
+}
+
 func (g *c2gen) pick(l []string) string { return l[g.r.Intn(len(l))] }
 
 func (g *c2gen) str() string {
@@ -392,7 +416,7 @@ func (g *c2gen) value(depth int) interface{} {
 	case 1:
 		return g.r.Intn(2) == 0
 	case 2, 3:
-		return c2num(g.pick(c2numbers))
+		return g.number()
 	case 4, 5:
 		return g.str()
 	case 6:
